@@ -10,9 +10,9 @@ import ast
 from typing import Dict, List, Optional, Tuple
 
 from ..interp import Domain, Frame, Interp, VPath, WriteEvent
-from ..model import ClassInfo, FuncInfo, Model
+from ..model import AnalysisError, ClassInfo, FuncInfo, Model
 from ..state import is_user_state_path
-from .common import PRIMITIVE_FUNCS, canon_key, is_loop_key, site_of, stmt_of, text_of
+from .common import purge_loop_facts, PRIMITIVE_FUNCS, canon_key, is_loop_key, site_of, stmt_of, text_of
 
 # (helper, callee name) pairs where the callee starts a new constituent transaction
 BOUNDARIES = {
@@ -105,34 +105,41 @@ def check_position_tick_invariant(model: Model) -> bool:
         getl = model.func("uniswap.liquitidy_math.get_liquidity")
     except Exception:
         return False
-    # (3)
+    from ..vn import Evaluator, Obj, Raise, Tup, Unreadable, as_term, sym
+    # (3) on every non-raising path of get_liquidity (helpers inlined) the validator is called on both tick parameters
     pa, pb = getl.params[1], getl.params[2]
-    got = set()
-    for c in _toplevel_calls(getl.node, "get_sqrt_ratio_at_tick"):
-        if c.args and isinstance(c.args[0], ast.Name):
-            got.add(c.args[0].id)
-    if not {pa, pb} <= got or _param_reassigned(getl, pa) or _param_reassigned(getl, pb):
+    try:
+        for conds, env, ret in Evaluator(model).effect_paths(getl, ["get_sqrt_ratio_at_tick"], None):
+            if isinstance(ret, Raise):
+                continue
+            seen = {repr(dict(e[3]).get("0")) for e in env.get("$fx", ()) if e[0] == "call" and e[1] == "get_sqrt_ratio_at_tick"}
+            if not {repr(as_term(sym(pa))), repr(as_term(sym(pb)))} <= seen:
+                return False
+        # (2) new_position passes two of its own parameters L, U to get_liquidity on every path and returns, at a fixed
+        # index, the PositionInfo built from the same L, U
+        idxs = set()
+        for conds, env, ret in Evaluator(model, opaque_funcs=["get_sqrt_ratio_at_tick", "get_amounts", "from_wei"]).effect_paths(
+                newp, ["get_liquidity"], newp.cls):
+            if isinstance(ret, Raise):
+                continue
+            calls = [e for e in env.get("$fx", ()) if e[0] == "call" and e[1] == "get_liquidity"]
+            if not calls or not isinstance(ret, Tup):
+                return False
+            args = dict(calls[0][3])
+            L, U = args.get("1"), args.get("2")
+            if not (isinstance(L, tuple) and L[0] == "sym" and L[1] in newp.params and isinstance(U, tuple) and U[0] == "sym"
+                    and U[1] in newp.params):
+                return False
+            hit = [i for i, x in enumerate(ret.items) if isinstance(x, Obj) and x.cls == "PositionInfo"
+                   and repr(as_term(x.fields.get("lower_tick"))) == repr(L) and repr(as_term(x.fields.get("upper_tick"))) == repr(U)]
+            if len(hit) != 1:
+                return False
+            idxs.add((hit[0], len(ret.items)))
+    except Unreadable as e:
+        raise AnalysisError(f"position-tick invariant: get_liquidity / new_position outside the evaluator's language ({e})")
+    if len(idxs) != 1:
         return False
-    # (2)
-    calls = _toplevel_calls(newp.node, "get_liquidity")
-    if not calls or len(calls[0].args) < 3 or not all(isinstance(a, ast.Name) for a in calls[0].args[1:3]):
-        return False
-    L, U = calls[0].args[1].id, calls[0].args[2].id
-    if _param_reassigned(newp, L) or _param_reassigned(newp, U) or L not in newp.params or U not in newp.params:
-        return False
-    pinfo_var = None
-    for st in newp.node.body:
-        if isinstance(st, ast.Assign) and isinstance(st.value, ast.Call) and ast.unparse(st.value.func) == "PositionInfo":
-            kws = {k.arg: ast.unparse(k.value) for k in st.value.keywords}
-            if kws.get("lower_tick") == L and kws.get("upper_tick") == U and isinstance(st.targets[0], ast.Name):
-                pinfo_var = st.targets[0].id
-    rets = [n for n in ast.walk(newp.node) if isinstance(n, ast.Return)]
-    if pinfo_var is None or len(rets) != 1 or not isinstance(rets[0].value, ast.Tuple):
-        return False
-    elts = rets[0].value.elts
-    idx = [i for i, e in enumerate(elts) if isinstance(e, ast.Name) and e.id == pinfo_var]
-    if len(idx) != 1:
-        return False
+    (pidx, nret), = idxs
     # (1) creation sites
     sites = []
     for f in model.all_functions():
@@ -154,7 +161,7 @@ def check_position_tick_invariant(model: Model) -> bool:
             if isinstance(n, ast.Assign) and isinstance(n.targets[0], ast.Tuple) and isinstance(n.value, ast.Call) \
                     and ast.unparse(n.value.func).endswith("new_position"):
                 names = [e.id if isinstance(e, ast.Name) else None for e in n.targets[0].elts]
-                if len(names) == len(elts) and names[idx[0]] == key:
+                if len(names) == nret and names[pidx] == key:
                     ok = True
         if not ok:
             return False
@@ -405,6 +412,9 @@ class AtomDomain(Domain):
         if (fr.func.qualname, callee.name) in self.boundaries:
             return (frozenset(), st[1])
         return st
+
+    def on_loop_edge(self, st, loopnode, fr):
+        return (st[0], purge_loop_facts(st[1], loopnode, fr))
 
     def on_branch(self, st, test, fr, taken):
         dirty, facts = st
